@@ -1,4 +1,4 @@
-CONSTANT NP = 9
+CONSTANT NP = 10
 INIT Init
 NEXT Next
 CHECK_DEADLOCK FALSE
